@@ -220,6 +220,10 @@ static void run_abort_limited(hctx* h, fcase* fc, int at, long lim) {
     if (exists) unlink(path);
     h->n_lines++;
 }
+/* abort releases everything the writer owns: after abort (and after the schema is freed) no block allocated between create
+ * and abort may be unreachable (LeakSanitizer's recoverable check; the table of completed row groups grows at the 5th, 9th,
+ * 17th row group, so long histories are part of the cases) */
+extern int __lsan_do_recoverable_leak_check(void) __attribute__((weak));
 static void run_abort(hctx* h, fcase* fc, int at) {
     char path[128]; snprintf(path, sizeof path, "/tmp/verif_c18_%d_ab.parquet", (int)getpid());
     fprintf(h->out, "abort");
@@ -246,10 +250,33 @@ static void run_abort(hctx* h, fcase* fc, int at) {
         }
     }
     if (w) carquet_writer_abort(w);
+    w = NULL;
     struct stat sb; int exists = stat(path, &sb) == 0;
-    fprintf(h->out, " | removed=%d p_no_file=%d\n", !exists, !exists);
+    carquet_schema_free(sc); sc = NULL;
+    int leak = __lsan_do_recoverable_leak_check ? __lsan_do_recoverable_leak_check() : 0;
+    fprintf(h->out, " | removed=%d p_no_file=%d p_no_leak=%d\n", !exists, !exists, !leak);
     if (exists) unlink(path);
-    carquet_schema_free(sc); h->n_lines++;
+    h->n_lines++;
+}
+/* many small row groups in one writer: 9..19 of them, one or two REQUIRED fixed-width columns */
+static void many_rg_case(hctx* h, fcase* fc, int* rg_end, int* nrg_out) {
+    memset(fc, 0, sizeof *fc);
+    fc->ncols = 1 + (int)h_below(h, 2);
+    for (int i = 0; i < fc->ncols; i++) { snprintf(fc->cols[i].name, sizeof fc->cols[i].name, "m%d", i); fc->cols[i].rep = 0; fc->cols[i].ptype = h_chance(h, 1, 2) ? 1 : 2; }
+    fc->codec = h_chance(h, 1, 2) ? 0 : 1; fc->page = 4096;
+    int nrg = 9 + (int)h_below(h, 11), ns = 0;
+    for (int g = 0; g < nrg; g++) {
+        int rows = 1 + (int)h_below(h, 5);
+        for (int c = 0; c < fc->ncols; c++) {
+            fstep* t = &fc->steps[ns++]; t->kind = 0; t->col = c; t->nrows = rows; t->nvals = rows; t->has_defs = 0; t->has_reps = 0;
+            t->defs = (uint8_t*)h_alloc((size_t)rows); memset(t->defs, 1, (size_t)rows);
+            t->vals = (uint8_t**)h_alloc((size_t)rows * sizeof(uint8_t*)); t->vlen = (int*)h_alloc((size_t)rows * sizeof(int));
+            int w = fc->cols[c].ptype == 1 ? 4 : 8;
+            for (int j = 0; j < rows; j++) { t->vals[j] = h_alloc((size_t)w); for (int b = 0; b < w; b++) t->vals[j][b] = (uint8_t)h_below(h, 256); t->vlen[j] = w; }
+        }
+        fc->steps[ns++].kind = 1; rg_end[g] = ns;
+    }
+    fc->nsteps = ns; *nrg_out = nrg;
 }
 
 static uint8_t* good_bytes(fcase* fc, size_t* n) {
@@ -358,6 +385,13 @@ static void subset_footers_case(fcase* fc) {
 static void gen_c18(hctx* h) {
     { fcase fc; huge_len_case(&fc); run_trunc(h, &fc); free_case(&fc); }
     { fcase fc; subset_footers_case(&fc); run_trunc(h, &fc); free_case(&fc); }
+    for (int rep = 0; rep < (h->thorough ? 6 : 1); rep++) {
+        fcase fc; int rg_end[24], nrg; many_rg_case(h, &fc, rg_end, &nrg);
+        static const int after[] = { 4, 5, 6, 8, 9, 10, 16, 17 };
+        for (int q = 0; q < 8; q++) if (after[q] <= nrg) run_abort(h, &fc, rg_end[after[q] - 1]);
+        run_abort(h, &fc, fc.nsteps - 1); run_abort(h, &fc, fc.nsteps);
+        free_case(&fc);
+    }
     long files = h->thorough ? 100 : 8;
     for (long i = 0; i < files; i++) {
         fcase fc; gen_case(h, &fc, 1);
